@@ -300,6 +300,10 @@ impl Fiber {
 
     self.channels.clear();
 
+    // a completed fiber has no further use for its parent, holding on to it
+    // keeps every ancestor of a long lived descendant alive
+    self.parent = None;
+
     waiter
   }
 
